@@ -1,6 +1,7 @@
 package main
 
 import (
+	"regexp"
 	"fmt"
 	"go/token"
 	"go/types"
@@ -351,6 +352,13 @@ func (ex *Exec) ghostInit(st State) State {
 		k := "G|" + s.C.Label
 		so := Sort(s.Why)
 		ex.keySort[k] = so
+		if ex.fc != nil && mentions(ex.fc.Requires, s.C.Label) {
+			// the function's precondition talks about the ghost: it enters with an arbitrary value
+			if _, done := st.m[k]; !done {
+				st = st.with(k, ex.vc.fresh("ghost0_"+s.C.Label, so))
+			}
+			continue
+		}
 		st = st.with(k, zeroOfSort(so))
 	}
 	return st
@@ -366,4 +374,15 @@ func (ex *Exec) useUFun(u *UFun) {
 		as = append(as, string(a))
 	}
 	ex.ufunDecl = append(ex.ufunDecl, fmt.Sprintf("(declare-fun %s (%s) %s)", u.Name, strings.Join(as, " "), u.Res))
+}
+
+// mentions: some clause refers to the identifier.
+func mentions(cs []*Clause, name string) bool {
+	re := regexp.MustCompile(`(^|[^A-Za-z0-9_.])` + regexp.QuoteMeta(name) + `($|[^A-Za-z0-9_])`)
+	for _, c := range cs {
+		if re.MatchString(c.Src) {
+			return true
+		}
+	}
+	return false
 }
